@@ -53,6 +53,7 @@ func (x *Exec) verifyUnit(fn *ssa.Function) {
 	x.returned = 0
 	x.initialHeaps = map[string]string{}
 	x.initialTrace, x.initialStore = "", ""
+	x.initialClock = ""
 	x.totalSteps = 0
 	x.stepBudget = 400000
 	x.budgetHit = false
@@ -327,6 +328,9 @@ func (x *Exec) modTarget(st *State, fr *Frame, ex ast.Expr, f func(kind, sort, r
 			case "clock": // the callee reads the wall clock: now() refers to its reading afterwards
 				f("ghost:clock", "", "", nil)
 				return
+			case "lastsig": // the callee asks a crypto.Signer for a signature
+				f("ghost:lastsig", "", "", nil)
+				return
 			case "heap":
 				if tid, ok := n.Args[0].(*ast.Ident); ok {
 					if sort := x.sortByTypeName(fr.fn, tid.Name); sort != "" {
@@ -455,7 +459,16 @@ func (x *Exec) callByContract(st *State, fr *Frame, callee *ssa.Function, c *Con
 					st.ghost["store"] = TV{x.storeSort(), st.fresh("store", x.storeSort())}
 					st.ghost["exists"] = TV{"(Array " + SSeqI + " Bool)", st.fresh("exists", "(Array "+SSeqI+" Bool)")}
 				case kind == "ghost:clock":
-					st.ghost["clock"] = TV{SInt, st.fresh("now", SInt)}
+					// the callee may read the clock any number of times: earlier readings stay
+					old := x.clockGet(st)
+					nc := st.fresh("clock", SSeqI)
+					x.freshN++
+					q := fmt.Sprintf("q_c_%d", x.freshN)
+					st.assume(tCmp("<=", sLen(SSeqI, old), sLen(SSeqI, nc)))
+					st.assume(fmt.Sprintf("(forall ((%s Int)) (! (=> (and (<= 0 %s) (< %s %s)) (= %s %s)) :pattern (%s)))", q, q, q, sLen(SSeqI, old), sIdx(SSeqI, nc, q), sIdx(SSeqI, old, q), sIdx(SSeqI, nc, q)))
+					st.ghost["clock"] = TV{SSeqI, nc}
+				case kind == "ghost:lastsig":
+					st.ghost["lastsig"] = TV{SSeqI, x.freshBytes(st, "sig")}
 				case strings.HasPrefix(kind, "ghost:"):
 					key := strings.TrimPrefix(kind, "ghost:")
 					n := x.freshBytes(st, "g")
